@@ -20,6 +20,8 @@ import EAO.Driver.CostsOnly
 import EAO.Driver.PriceSplit
 import EAO.Driver.FixSplit
 import EAO.Driver.SplitStorage
+import EAO.Driver.ObSplit
+import EAO.Driver.DstGrid
 /-!
 Line-protocol driver: one JSON request per line on stdin, one JSON response per line on stdout.
 `{"ok": …}` or `{"err": "<class>"}`.  Unknown or ill-formed requests are answered with
@@ -29,7 +31,7 @@ operations it knows.
 open Lean EAO EAO.Driver
 
 def handlers : List (String → Json → Option (Except String Json)) :=
-  [handleCore, handleGrid, handleOrderBook, handleContract, handleStorage, handleSlp, handleCHP, handleScaled, handlePeriodic, handleSplit, handleState, handlePrices, handleLinked, handleCoarseBuild, handleSplitBuild, handleParams, handleWrapWindow, handleCoarseStorage, handleCostsOnly, handlePriceSplit, handleFixSplit, handleSplitStorage]
+  [handleCore, handleGrid, handleOrderBook, handleContract, handleStorage, handleSlp, handleCHP, handleScaled, handlePeriodic, handleSplit, handleState, handlePrices, handleLinked, handleCoarseBuild, handleSplitBuild, handleParams, handleWrapWindow, handleCoarseStorage, handleCostsOnly, handlePriceSplit, handleFixSplit, handleSplitStorage, handleObSplit, handleDstGrid]
 
 def handle (j : Json) : Except String Json := do
   let op ← field j "op" Json.getStr?
